@@ -105,6 +105,11 @@ def run(ctx):
     wrappers.listeners(ctx, rep, roles, "C15", "R15.6")
     from .. import identity
     identity.check_keys(ctx, rep, "C15", "R15.7", ["listeners", "kv"])
+    # "updates ignored as stale produce no call": R15.2 ties the event to a stored update; which updates are stored is R04.4
+    # (an occupied entry is overwritten iff the update is strictly newer) — re-run here (seed E-fa-2: `<` for `<=` in the stale test)
+    from . import c04
+    c04.r04_4(ctx, rep, roles)
+    ctx.report.rules[-1].id = "R15.8(R04.4)"
 
 
 def r15_1(ctx, rep):
